@@ -18,8 +18,12 @@
 
 static const char *const seq_alpha[] = {
 	"+1s", "-1s", "+2h", "-2h", "+90m", "-90m", "+24h", "-24h", "+48h", "-48h", "+1440m", "+86400s", "-86400s", "+0s", "+3600s", "+25h", "-25h",
+	/* unsigned spellings: a sign given to an earlier argument must not carry over to them (pairs only) */
+	"30m", "2s", "1h",
 };
 #define NSEQA	((int)(sizeof(seq_alpha) / sizeof(*seq_alpha)))
+#define NSEQA3	17	/* the triples are built over the signed spellings */
+#define SEQ_UNSIGNED_P(i)	((i) >= NSEQA3)
 #define SEQ_24H	6	/* index of "+24h" */
 static int64_t seq_secs[NSEQA];
 
@@ -74,7 +78,7 @@ mk_seqs(int triples)
 		seq_secs[i] = seq_text_secs(seq_alpha[i]);
 	}
 	nseq2 = NSEQA * NSEQA;
-	nseq = nseq2 + (triples ? NSEQA * NSEQA * NSEQA : 0);
+	nseq = nseq2 + (triples ? NSEQA3 * NSEQA3 * NSEQA3 : 0);
 	seqs = calloc((size_t)nseq, sizeof(*seqs));
 	for (int a = 0; a < NSEQA; a++) {
 		for (int b = 0; b < NSEQA; b++, k++) {
@@ -83,9 +87,9 @@ mk_seqs(int triples)
 			seq_parse(seqs + k);
 		}
 	}
-	for (int a = 0; triples && a < NSEQA; a++) {
-		for (int b = 0; b < NSEQA; b++) {
-			for (int c = 0; c < NSEQA; c++, k++) {
+	for (int a = 0; triples && a < NSEQA3; a++) {
+		for (int b = 0; b < NSEQA3; b++) {
+			for (int c = 0; c < NSEQA3; c++, k++) {
 				seqs[k].n = 3;
 				seqs[k].idx[0] = a, seqs[k].idx[1] = b, seqs[k].idx[2] = c;
 				seq_parse(seqs + k);
@@ -125,8 +129,9 @@ static void
 seq_key(char *key, size_t ksz, const char *what, const char *rep, const struct seq_s *q, const char shape[4], const char *why)
 {
 	if (q->n == 2) {
-		snprintf(key, ksz, "seq %srep=%s first-crosses-midnight=%s second-multiple-of-day=%s (first=%c second=%c): %s", what, rep,
-			 shape[0] == 'x' ? "yes" : "no", shape[1] == 'd' ? "yes" : "no", shape[0], shape[1], why);
+		snprintf(key, ksz, "seq %srep=%s first-crosses-midnight=%s second-multiple-of-day=%s (first=%c second=%c)%s: %s", what, rep,
+			 shape[0] == 'x' ? "yes" : "no", shape[1] == 'd' ? "yes" : "no", shape[0], shape[1],
+			 SEQ_UNSIGNED_P(q->idx[1]) ? (seq_secs[q->idx[0]] < 0 ? " second-unsigned-after-negative" : " second-unsigned") : "", why);
 	} else {
 		snprintf(key, ksz, "seq3 %srep=%s steps=%s: %s", what, rep, shape, why);
 	}
@@ -762,6 +767,129 @@ judge_stdin_durs(int k, int replay)
 		}
 		line = nl ? nl + 1 : line + strlen(line);
 	}
+	return bad;
+}
+
+/* the dadd binary in argument mode: `dadd TEXT A B' where B is spelt without a sign */
+static int
+judge_seq_args(int ti, int k, int replay)
+{
+	const struct seq_s *q = seqs + k;
+	char text[64], got[128] = "", key[240], cas[64], cmd[320], args[64], shape[4], exe[512];
+	int rd = rc_rd(SEQZ_Y, SEQZ_M, SEQZ_D), sod = seq_ztod[ti], s60 = 0, st, pfd[2];
+	int64_t start = (int64_t)rc_get(rd)->unixd * 86400 + sod, want = start + q->sum, gi = 0;
+	pid_t pid;
+	ssize_t nr;
+	size_t tot = 0;
+	EX_CTR(c_bind, "cli_binding_replays");
+	EX_CTR(c_trans, "transitions");
+
+	held_text(H_YMD, rd, sod, text, sizeof(text));
+	snprintf(exe, sizeof(exe), "%s/src/dadd", ex.tree ? ex.tree : ".");
+	if (pipe(pfd) < 0) {
+		return 0;
+	}
+	fflush(stdout);
+	if ((pid = fork()) == 0) {
+		int nul = open("/dev/null", O_RDWR);
+		struct itimerval z = {{0, 0}, {0, 0}};
+		setitimer(ITIMER_REAL, &z, NULL);
+		signal(SIGALRM, SIG_DFL);
+		dup2(nul, 0), dup2(pfd[1], 1), dup2(nul, 2);
+		close(pfd[0]), close(pfd[1]);
+		alarm(10);
+		execl(exe, "dadd", text, seq_alpha[q->idx[0]], seq_alpha[q->idx[1]], (char*)NULL);
+		_exit(127);
+	}
+	close(pfd[1]);
+	while (tot + 1 < sizeof(got) && ((nr = read(pfd[0], got + tot, sizeof(got) - 1 - tot)) > 0 || (nr < 0 && errno == EINTR))) {
+		if (nr > 0) {
+			tot += (size_t)nr;
+		}
+	}
+	close(pfd[0]);
+	got[tot] = '\0';
+	got[strcspn(got, "\n")] = '\0';
+	while (waitpid(pid, &st, 0) < 0 && errno == EINTR) {
+		;
+	}
+	++*c_bind;
+	*c_trans += 2;
+	seq_shape(q, start, shape);
+	seq_args(args, sizeof(args), q);
+	ex_outcome(ex_hash(got, strlen(got)));
+	if (replay) {
+		printf("  dadd %s %s -> '%s'; Unix %lld %+lld = %lld\n", text, args, got, (long long)start, (long long)q->sum, (long long)want);
+	}
+	if (!dec_datetime(H_YMD, got, &gi, &s60) || s60 || gi != want) {
+		seq_key(key, sizeof(key), "binary arguments ", "ymd", q, shape, "wrong instant");
+		snprintf(cas, sizeof(cas), "SEQA %d %d", ti, k);
+		snprintf(cmd, sizeof(cmd), "dadd %s %s", text, args);
+		ex_viol(key, sod, cas, cmd, "%s prints '%s'; the steps sum to %lld s, i.e. Unix %lld", cmd, got, (long long)q->sum, (long long)want);
+		return 1;
+	}
+	return 0;
+}
+
+/* negative epoch counts inside stdin lines for -i %s: at the start of the line, behind a blank, behind a tab */
+static int
+judge_stdin_negepoch(int replay)
+{
+	static const long long vals[] = {-1, -86400, -86401, -1330560000LL, -11644473600LL, 86401};
+	static const char *const pre[3] = {"", "id ", "id\t"};
+	static const char *const prename[3] = {"line-start", "blank", "tab"};
+	const char *rundir = getenv("VERIF_RUNDIR");
+	char fin[600], cmd[1400], line[128], key[200], c2[200];
+	FILE *f, *pp;
+	int bad = 0, n = 0;
+	EX_CTR(c_bind, "cli_binding_replays");
+	EX_CTR(c_trans, "transitions");
+
+	snprintf(fin, sizeof(fin), "%s/c11negep.%d.in", rundir ? rundir : "/tmp", (int)getpid());
+	if ((f = fopen(fin, "w")) == NULL) {
+		return 0;
+	}
+	for (int p = 0; p < 3; p++) {
+		for (int i = 0; i < 6; i++) {
+			fprintf(f, "%s%lld\n", pre[p], vals[i]);
+		}
+	}
+	fclose(f);
+	snprintf(cmd, sizeof(cmd), "'%s/src/dconv' -i %%s < '%s' 2>/dev/null", ex.tree ? ex.tree : ".", fin);
+	++*c_bind;
+	if ((pp = popen(cmd, "r")) == NULL) {
+		unlink(fin);
+		return 0;
+	}
+	for (int p = 0; p < 3; p++) {
+		for (int i = 0; i < 6; i++, n++) {
+			char num[32], exp[64] = "";
+			struct dt_dt_s v;
+			line[0] = '\0';
+			if (fgets(line, sizeof(line), pp)) {
+				line[strcspn(line, "\n")] = '\0';
+			}
+			snprintf(num, sizeof(num), "%lld", vals[i]);
+			v = dt_strpdt(num, "%s", NULL);
+			if (!dt_unk_p(v)) {
+				dt_strfdt(exp, sizeof(exp), NULL, v);
+			}
+			++*c_trans;
+			ex_outcome(ex_hash(line, strlen(line)));
+			if (replay) {
+				printf("  '%s%lld' | dconv -i %%s -> '%s', as an argument '%s'\n", p == 2 ? "id<TAB>" : pre[p], vals[i], line, exp);
+			}
+			if (strcmp(line, exp)) {
+				snprintf(key, sizeof(key), "stdin line with an epoch count, -i %%s, count %s behind %s: differs from the argument",
+					 vals[i] < 0 ? "negative" : "positive", prename[p]);
+				snprintf(c2, sizeof(c2), "printf '%s%lld\\n' | dconv -i %%s", p == 2 ? "id\\t" : pre[p], vals[i]);
+				ex_viol(key, (double)(p * 6 + i), "NEGEP", c2, "%s prints '%s'; `dconv -i %%s -- %lld' gives '%s'", c2, line, vals[i], exp);
+				bad++;
+			}
+		}
+	}
+	pclose(pp);
+	unlink(fin);
 	return bad;
 }
 
